@@ -67,7 +67,7 @@ class Run:
     # ------------------------------------------------------------------ Coq
     def coq_make(self, targets, timeout=1500):
         t = time.time()
-        rc, out, err = sh(["make", "-j16"] + targets, cwd=COQ, timeout=timeout)
+        rc, out, err = sh(["make", "-k", "-j16"] + targets, cwd=COQ, timeout=timeout)
         self.timings["coq_make"] = time.time() - t
         log = out + err
         open(os.path.join(BUILD, "coq_%s.log" % self.prop), "w").write(log)
@@ -419,8 +419,26 @@ def execute(mod, tier, seed, replay=None, repo="/repo"):
         if tier == "thorough" and getattr(mod, "COQCHK", None):
             run.coqchk(mod.COQCHK)
     else:
-        for name, _ in mod.THEOREMS:
-            run.obligations.append(("theorem %s" % name, False, "development does not build"))
+        # part of the development does not build: a theorem is still re-checked when every Props file its pinned statement
+        # requires is up to date (`make -q`: built from the current sources in this run); a file that failed to build may have
+        # left an older .vo behind, which must not be consulted
+        fresh = {}
+
+        def up_to_date(props_mod):
+            if props_mod not in fresh:
+                rc_, _, _ = sh(["make", "-q", "theories/Props/%s.vo" % props_mod], cwd=COQ, timeout=600)
+                fresh[props_mod] = (rc_ == 0)
+            return fresh[props_mod]
+        ok_thms = []
+        for name, stmt in mod.THEOREMS:
+            req = (getattr(mod, "REQUIRES_FOR", None) or {}).get(name, mod.REQUIRES)
+            mods = re.findall(r"Props\.(\w+)", " ".join(req))
+            if mods and all(up_to_date(m) for m in mods):
+                ok_thms.append((name, stmt))
+            else:
+                run.obligations.append(("theorem %s" % name, False, "development does not build"))
+        if ok_thms:
+            run.audit(ok_thms, mod.REQUIRES, getattr(mod, "REQUIRES_FOR", None))
     run.log("coq: %d/%d obligations discharged" % (sum(1 for o in run.obligations if o[1]), len(run.obligations)))
 
     # 2. runners (a property may span several areas: mod.AREAS + mod.area_of(case line))
